@@ -122,6 +122,9 @@ class Resolver:
                 pass
             else:
                 node = self.__get(node, part)
+                if node is None:
+                    # relaxed lookup failed: do not resolve further components
+                    return None
         return node
 
     def __get(self, node, name):
